@@ -13,6 +13,10 @@ use crate::sim::sched::Mix;
 use crate::trace::decode;
 use crate::wire::Val;
 
+/// input bits per party in the balance configuration: the wire indices of all parties together
+/// cover more than two 128-bit words of the preprocessing bit strings
+pub const BALANCE_BITS: usize = 136;
+
 /// `bits` input bits per party, one XOR gate, output = xor of the first bits
 pub fn wide_circ(n: usize, bits: usize) -> CircSpec {
     let mut insts = vec![];
@@ -121,7 +125,7 @@ fn test_case(c: &Case, sh: &Shared) -> Result<CaseInfo, Fail> {
     let cfg = ExecCfg { record_probes: true, ..Default::default() };
     match c {
         Case::Balance { n, value, runs, .. } => {
-            let case = MpcCase::simple(wide_circ(*n, 8), vec![vec![*value; 8]; *n], 0, vec![0]);
+            let case = MpcCase::simple(wide_circ(*n, BALANCE_BITS), vec![vec![*value; BALANCE_BITS]; *n], 0, vec![0]);
             for _ in 0..*runs {
                 let run = run_mpc(&case, Adversary::default(), &cfg);
                 check_honest_result(&case, &run.res).map_err(|e| Fail::new("C06|wrong-result", e))?;
@@ -188,7 +192,7 @@ fn note_deltas(res: &RunResult<Vec<bool>>, sh: &Shared) -> Result<(), Fail> {
 pub fn run(tier: Tier, seed: u64) -> i32 {
     let ctx = Ctx::new("C06", tier, seed, "exploration");
     let big_n = tier.pick(400usize, 4000);
-    ctx.set_rule(&format!("repeated executions (the engine's own coins are the random variable): (i) balance - n in {{2,3}}, 8 input bits per party, every input fixed to 0 for N={big_n} runs and to 1 for N runs; from the transcript only, b = masked_input[w] XOR (shares the others sent to the owner) = x_w XOR r_P[w]; per (n, party, wire, value) cell the number of ones must lie within 6.5 sigma of N/2 (two-sided tail 8e-11 per cell, 80 cells => < 1e-8 per run); (ii) canary - 128 random input bits per party: neither they nor their complement occur in any message the party sends, as packed bit stream (both bit orders, both wire orders, every bit offset) or as 0/1 bytes at any offset and stride 1..40; (iii) uniqueness of every global key (probe) and every 128-bit mask vector over all parties and executions. non-trivial = a balance cell with N complete runs / a canary execution; evaluations counts engine executions"));
+    ctx.set_rule(&format!("repeated executions (the engine's own coins are the random variable): (i) balance - n in {{2,3}}, 136 input bits per party (wire indices 0..407, i.e. every position of the 64/128-bit words in which the preprocessing bit strings are handled), every input fixed to 0 for N={big_n} runs and to 1 for N runs; from the transcript only, b = masked_input[w] XOR (shares the others sent to the owner) = x_w XOR r_P[w]; per (n, party, wire, value) cell the number of ones must lie within 6.5 sigma of N/2 (two-sided tail 8e-11 per cell, 1360 cells => < 1.1e-7 per run); (ii) canary - 128 random input bits per party: neither they nor their complement occur in any message the party sends, as packed bit stream (both bit orders, both wire orders, every bit offset) or as 0/1 bytes at any offset and stride 1..40; (iii) uniqueness of every global key (probe) and every 128-bit mask vector over all parties and executions. non-trivial = a balance cell with N complete runs / a canary execution; evaluations counts engine executions"));
     ctx.assume("statistical: detects a constant or grossly biased mask, reuse and plain leakage; not cryptographic weakness of the generator");
     let sh = Shared { deltas: Default::default(), delta_count: Default::default(), masks: Default::default(), mask_count: Default::default(), counts: Default::default() };
     let chunk = 25;
